@@ -729,6 +729,7 @@ fn cmd_worker(scenarios: &[Scenario], a: WorkerArgs) -> i32 {
                 Err(v) => v.oracle.clone(),
             };
             let _ = writeln!(h, "{idx} {:016x} {} {}", out.ev_hash, out.tape.len(), code);
+            let _ = h.flush(); // a later run may kill the process
         }
         if let Some(h) = &out.harness_error {
             if st.harness_errors.len() < 5 {
@@ -1390,15 +1391,31 @@ fn cmd_audit(scenarios: &[Scenario], prop: &str, runs: u64) -> i32 {
             }
         }
         let mut log = BTreeMap::new();
-        for mut k in kids {
+        let mut queue: Vec<Spawned> = kids;
+        let mut resumed = 0u64;
+        while let Some(mut k) = queue.pop() {
             let st = k.child.wait();
-            if !matches!(st.as_ref().map(|s| s.code()), Ok(Some(0))) {
-                eprintln!("audit: worker {} exited with {st:?} (runs {}..{})", k.id, k.from, k.to);
-            }
             if let Ok(txt) = std::fs::read_to_string(out.join(format!("{}.hashes", k.id))) {
                 for l in txt.lines() {
                     if let Some((i, rest)) = l.split_once(' ') {
                         log.insert(i.parse::<u64>().unwrap_or(u64::MAX), rest.to_string());
+                    }
+                }
+            }
+            if !matches!(st.as_ref().map(|s| s.code()), Ok(Some(0))) {
+                // the worker died (a run that kills the process is a result, and a deterministic
+                // one): note it and resume after it
+                let at = read_cur(&out, &k.id).map_or(k.from, |x| x.0);
+                log.insert(at, "process died".to_string());
+                if at + 1 < k.to && resumed < 2000 {
+                    resumed += 1;
+                    let id = format!("a{round}_r{resumed}");
+                    match spawn_worker(prop, seed, at + 1, k.to, &out, &id, true) {
+                        Ok(s) => queue.push(s),
+                        Err(e) => {
+                            eprintln!("HARNESS ERROR: {e}");
+                            return 2;
+                        }
                     }
                 }
             }
